@@ -16,6 +16,26 @@ CHECKS = {
    text="Runtime monitoring: generated models (fan-in with repeated calls, callers with callers, cycles through the target, mutual recursion, external callees) x targets run through the real RCallGraph.Analysis, `coca rcall` and `coca call -l`; the monitor checks the callback map for exact multiset equality with the inverse project-internal call relation and the DOT edges against the caller-chain relation (membership, direct-caller completeness, well-formedness by two parsers).",
    technique="generated workloads + offline reference-model monitor (inverse-relation equality, caller-chain membership), crash monitor",
    design="§4 C04"),
+ "C13": dict(
+   text="Runtime monitoring: generated code models (types over package trees 1-5 deep, implements/extends/field/call relations to project types, externals, self, Main/main, colliding package-segment concatenations) x include filters x merge modes run through the real ArchApp.Analysis, MergeHeaderFile, ToMapDot and `coca arch [-x][-H][-P]`; the monitor checks node list, relation restricted to node pairs, the package quotient without self-loops and the DOT (gographviz parse, each type a leaf once under its package clusters, edges only between displayed nodes) against a reference relation built from the statement.",
+   technique="generated workloads + offline reference-model monitor (relation/quotient equality, DOT structure), crash monitor",
+   design="§4 C13"),
+ "C14": dict(
+   text="Runtime monitoring: real repositories are built with the installed git from generated operation scripts (create/modify/delete/renames of all notations, binary files, paths with spaces, empty commits, merges, hostile author names and subjects); ground truth is read back from git's machine-readable -z --raw --numstat channel; the real `coca git` (commits.json) and BuildMessageByInput on the exact argv of cmd/git.go are compared commit by commit (rev/author/date/subject equality, per-commit change-set equality, no foreign change).",
+   technique="generated git histories + offline monitor joining git's -z ground truth with commits.json (exactly-once / no-misattribution)",
+   design="§4 C14"),
+ "C15": dict(
+   text="Runtime monitoring: synthesised commit lists (rename chains in brace and full-path notation incl. {sub => } / { => sub}, delete-then-recreate, shared files/authors, ties, conventional-commit subjects), partly rendered to log text and parsed, run through GetTeamSummary / CalculateCodeAge / GetTopAuthors / BasicSummary / BuildChangeMap and the tables of `coca git -b -t -a -o -m`; a reference fold written from the statement decides values and promised orders.",
+   technique="generated histories + offline reference fold (conservation of commits/authors/lines, rename carry-over, promised orders)",
+   design="§4 C15"),
+ "C16": dict(
+   text="Runtime monitoring: generated source trees in six languages with planted code/comment/blank line counts (ignored dirs, empty dirs, root files, nested dirs) run through the real `coca cloc --by-directory [-i]` and `--top-file --top-size N` (stdout, cloc.csv, sort_cloc.json; cwd inside and outside); monitor checks header, one row per non-ignored sub-directory, cell = planted code lines, summary = sum, top-file order/truncation/figures. The same workloads are repeated with a -race build of coca under GOMAXPROCS 1/2/4/16; DATA RACE reports are counted from the GORACE log and de-duplicated by outermost coca/scc frame pair.",
+   technique="generated trees + offline conservation monitor over CLI output; Go race detector on the scc pipeline under varied GOMAXPROCS",
+   design="§4 C16"),
+ "C17": dict(
+   text="Runtime monitoring: generated source texts (code tokens, string/char/back-tick literals containing comment markers and TODO, line/block/hash comments from a comment grammar: empty, one char, marker only, colon/assignee forms, mixed case, multi-line, TODO-later decoys, unterminated block at EOF) x all 32 subsets of a 5-extension filter run through TodoApp.AnalysisPath and `coca todo`; monitor checks exact multiset equality of (file, start line, assignee, normalised message) with the planted comments and that no shape crashes the scan.",
+   technique="generated workloads + offline exactly-once monitor (planted vs reported TODO entries), recover()/process-death crash monitor",
+   design="§4 C17"),
 }
 
 def main():
